@@ -17,7 +17,8 @@ Section P.
     destruct (veto c).
     - destruct (mbin Ms mode (k_inv K) v c); [reflexivity|].
       destruct (mbin Ms mode (k_inv K) lb c); [reflexivity|]. rewrite IH. reflexivity.
-    - destruct (dv_track Ms mode eps v c) as [v1 keep]. destruct keep; [rewrite IH|]; reflexivity.
+    - destruct (mbin Ms mode (k_inv K) v c); [|rewrite IH; reflexivity].
+      destruct (dv_track Ms mode eps v c) as [v1 keep]. destruct keep; [rewrite IH|]; reflexivity.
   Qed.
 
   (* what the scan decides: the first visited category that is not vetoed and
@@ -39,9 +40,12 @@ Section P.
         * split; [left; reflexivity|]. split; [exact Hv|]. split; [exact Hl|]. eauto.
         * specialize (IH v). destruct (dv_scan K Ms mode eps lb veto l v) as [[r v'] lg]. cbn in *.
           destruct r; [destruct IH as (Hin & R); split; [right; exact Hin|exact R]..|exact I].
-    - destruct (dv_track Ms mode eps v c) as [v1 keep]. destruct keep; [|exact I].
-      specialize (IH v1). destruct (dv_scan K Ms mode eps lb veto l v1) as [[r v'] lg]. cbn in *.
-      destruct r; [destruct IH as (Hin & R); split; [right; exact Hin|exact R]..|exact I].
+    - destruct (mbin Ms mode (k_inv K) v c) eqn:Hm.
+      + destruct (dv_track Ms mode eps v c) as [v1 keep]. destruct keep; [|exact I].
+        specialize (IH v1). destruct (dv_scan K Ms mode eps lb veto l v1) as [[r v'] lg]. cbn in *.
+        destruct r; [destruct IH as (Hin & R); split; [right; exact Hin|exact R]..|exact I].
+      + specialize (IH v). destruct (dv_scan K Ms mode eps lb veto l v) as [[r v'] lg]. cbn in *.
+        destruct r; [destruct IH as (Hin & R); split; [right; exact Hin|exact R]..|exact I].
   Qed.
 
   (* ---- the map invariant ---- *)
